@@ -43,3 +43,15 @@ def counting_failer_fn(runs, succeed_on_retry):
             raise ValueError("x")
 
     return fn
+
+
+def counting_sleeper_fn(runs, seconds):
+    """Records the attempt counter it was delivered with, works for a while, fails."""
+    import asyncio
+
+    async def fn(m: MessageDependency):
+        runs.append(m.parameters.retries.already_tried)
+        await asyncio.sleep(seconds)
+        raise ValueError("x")
+
+    return fn
